@@ -41,6 +41,7 @@ inductive Q
   | version (n : Int)
   | cache (id : Nat)
   | warn (bit : Nat) (n : Int)
+  | gate (n : Int)
 
 def parseQuery? (s : String) : Option Q :=
   let kind := s.take 1 |>.toString
@@ -49,6 +50,7 @@ def parseQuery? (s : String) : Option Q :=
   | [a, n] => do
     let n ← n.toInt?
     if kind == "v" then (if a == "" then some (.version n) else none)
+    else if kind == "g" then (if a == "" then some (.gate n) else none)
     else do
       let a ← a.toNat?
       if kind == "s" || kind == "d" then some (.state a n)
@@ -102,6 +104,13 @@ def runQuery (cx : Ctx) (q : Q) : Ctx × String :=
   | .version n =>
     match nodeAt cx n with
     | some nd => ask cx (.dep (.version nd)) false
+    | none => (cx, "bad-op")
+  | .gate n =>
+    -- is BIP68 enforced when block n is validated? validate.go/chain.go consult
+    -- deploymentState(n.parent, DeploymentCSV) == Active; DeploymentCSV has id 2.
+    if n < 0 then (cx, "bad-op") else
+    match nodeAt cx n with
+    | some nd => ask cx (.dep (.state 2 nd.tail)) true
     | none => (cx, "bad-op")
   | .warn bit n =>
     match nodeAt cx n with
